@@ -60,7 +60,7 @@ type obs struct {
 	OpsLater  int    `json:"ops_later"`
 	Log       string `json:"log"`
 	Reached   bool   `json:"stall_reached"` // the stalling call had begun when the operation returned
-	ElapsedMs int64  `json:"elapsed_ms"` // from the cancellation (or start) to the return; not compared
+	ElapsedMs int64  `json:"elapsed_ms"`    // from the cancellation (or start) to the return; not compared
 	PeerErr   string `json:"peer_err,omitempty"`
 }
 
